@@ -160,7 +160,11 @@ impl<T: ValueRef<U> + ?Sized, U: PrimitiveValueType> ArrayBuilder for BytesArray
     }
 
     fn replace_bitmap(&mut self, valid: BitVec) {
-        let _ = mem::replace(&mut self.valid, valid);
+        // only the validity of the last `valid.len()` items is replaced: the builder may already
+        // hold items of an earlier block (a batch that spans blocks)
+        let keep = self.valid.len() - valid.len();
+        self.valid.truncate(keep);
+        self.valid.extend_from_bitslice(&valid);
     }
 
     fn with_capacity(capacity: usize) -> Self {
